@@ -106,8 +106,8 @@ Definition scaninfo_wf (ncur ri rir : Z) (i : scaninfo) : Prop :=
   Z.of_nat (length (i_membership i)) = i_blocks_in_MCU i /\
   Forall (fun m => 0 <= m < ncur) (i_membership i) /\
   1 <= i_MCUs_per_row i /\ 1 <= i_MCU_rows i /\
-  (0 < rir -> 0 <= i_restart_interval i <= g_RESTART_MAX) /\
-  (rir <= 0 -> i_restart_interval i = ri).
+  (0 <= ri -> 0 <= i_restart_interval i <= g_RESTART_MAX) /\
+  (rir <= 0 -> ri <= g_RESTART_MAX -> i_restart_interval i = ri).
 
 Theorem per_scan_bounds_lemma : forall width height nc lossless comps u ncur cur ri rir,
   setup_wf width height nc lossless comps u ->
@@ -160,7 +160,12 @@ Proof.
   - intros [[[[blocks mem] mpr] rows] lasts] [Hb [Hl [Hm [Hmpr Hrows2]]]].
     apply sat_ret. unfold scaninfo_wf. cbn [i_blocks_in_MCU i_membership i_MCUs_per_row i_MCU_rows i_restart_interval].
     split; [exact Hb|]. split; [exact Hl|]. split; [exact Hm|]. split; [exact Hmpr|]. split; [exact Hrows2|].
+    change (g_RESTART_CLAMP_DIRECT =? 1) with true. cbn [andb]. consts.
     split.
-    + intro Hr. replace (rir >? 0) with true by lia. consts. nia.
-    + intro Hr. replace (rir >? 0) with false by lia. reflexivity.
+    + intro Hr. destruct (rir >? 0) eqn:Er.
+      * assert (1 <= rir * mpr) by nia.
+        match goal with |- context [if ?b then _ else _] => destruct b eqn:? end; lia.
+      * match goal with |- context [if ?b then _ else _] => destruct b eqn:? end; lia.
+    + intros Hr Hri. replace (rir >? 0) with false by lia.
+      match goal with |- context [if ?b then _ else _] => destruct b eqn:? end; lia.
 Qed.
